@@ -27,7 +27,8 @@ RULE = ("G1 formula ASTs (118 symbols, integer/decimal counts, nested ()[]{} gro
         "fractional ones 0.001..999.999 with 1-3 decimals, built with checks=()): a coefficient != 1 and a key with a "
         "charge or a count; a printed coefficient is read back as a number; ~40 % of the reactions carry inactive "
         "reactants and/or products (1-2 keys), expected behind the active items of their side inside one pair of "
-        "parentheses, in stored order.  Distinct by case digest.  'prefixes' enumerates all 49 prefixes (24 greek "
+        "parentheses, in stored order.  Distinct by case digest.  'render_long': 36 written-out chains with "
+        "300-1200 numeric counts per part.  'prefixes' enumerates all 49 prefixes (24 greek "
         "labels, the radical dot, 24 greek label + radical dot) x 4 bodies.")
 ASSUMPTIONS = ["vlib/gen_formula.py canonical text and Fraction composition of the AST (shared reference model of C01)",
                "own transcription of the presentation tables (greek names/letters, sub/superscript digits, arrows: "
@@ -192,18 +193,37 @@ def _renderers():
     return {"latex": formula_to_latex, "unicode": formula_to_unicode, "html": formula_to_html}
 
 
+def _excerpt(s, pos, width=60):
+    """long strings (formulas with hundreds of terms) are shown as a window around the interesting position"""
+    if len(s) <= 400:
+        return s
+    lo = max(0, pos - width)
+    return ("..." if lo else "") + s[lo:pos + width] + ("..." if pos + width < len(s) else "")
+
+
+def _first_difference(a, b):
+    n = min(len(a), len(b))
+    for i in range(n):
+        if a[i] != b[i]:
+            return i
+    return n
+
+
 def judge_name(ctx, fmt, rendered, canon, what, txt):
     """rendered must be a str that inverts to canon."""
     if not isinstance(rendered, str):
-        ctx.fail("not_a_string:%s:%s" % (what, fmt), text=txt, got=repr(rendered)[:200])
+        ctx.fail("not_a_string:%s:%s" % (what, fmt), text=short(txt, 400), got=repr(rendered)[:200])
         return False
     try:
         back = invert(fmt, rendered)
     except NotInvertible as e:
-        ctx.fail("not_invertible:%s:%s" % (what, fmt), text=txt, rendered=rendered, at=e.pos, why=e.why)
+        ctx.fail("not_invertible:%s:%s" % (what, fmt), text=short(txt, 400), rendered=_excerpt(rendered, e.pos), at=e.pos,
+                 why=e.why)
         return False
     if back != canon:
-        ctx.fail("inverse_differs:%s:%s" % (what, fmt), text=txt, rendered=rendered, recovered=back, canonical=canon)
+        d = _first_difference(back, canon)
+        ctx.fail("inverse_differs:%s:%s" % (what, fmt), text=short(txt, 400), rendered=short(rendered, 400),
+                 recovered=_excerpt(back, d), canonical=_excerpt(canon, d))
         return False
     return True
 
@@ -251,6 +271,92 @@ def enum_prefixes(tier):
             f = {"prefix": pre, "hyd": "..", "electron": False}
             f.update(b)
             yield f
+
+
+# -- long formulas (every count becomes a subscript, however many there are) ------------------------------
+
+def _grp(br, terms, count):
+    return {"br": br, "terms": terms, "count": count, "primes": ""}
+
+
+# repeat unit -> (terms, numeric counts per unit)
+_LONG_UNITS = {
+    "C2H5": ([_el("C", "2"), _el("H", "5")], 2),
+    "CH2": ([_el("C"), _el("H", "2")], 1),
+    "(CH2)2": ([_grp("(", [_el("C"), _el("H", "2")], "2")], 2),
+    "Si12O2.5": ([_el("Si", "12"), _el("O", "2.5")], 2),
+}
+
+
+def long_formula(case):
+    """case: {"unit": key of _LONG_UNITS, "counts": number of numeric counts wanted in the long part,
+    "where": "first" | "hydrate" | "both", "charge": None | {...}, "suffix": str} -> G1 AST.
+    The long part is  CH3 + unit * n + CH3  (a chain written out structurally, two counts in the end groups)."""
+    terms, per = _LONG_UNITS[case["unit"]]
+    n = (case["counts"] - 2) // per
+    chain = [_el("C"), _el("H", "3")] + [dict(t) for _ in range(n) for t in terms] + [_el("C"), _el("H", "3")]
+    short_part = [_el("Na"), _el("Cl")]
+    if case["where"] == "first":
+        parts = [{"n": 1, "terms": chain}]
+    elif case["where"] == "hydrate":
+        parts = [{"n": 1, "terms": short_part}, {"n": 3, "terms": chain}]
+    else:
+        parts = [{"n": 1, "terms": chain}, {"n": 12, "terms": chain}]
+    return {"prefix": "", "hyd": "..", "electron": False, "parts": parts, "charge": case["charge"],
+            "suffix": case["suffix"]}
+
+
+def enum_long(tier):
+    i = 0
+    for counts in (300, 600, 1200):
+        for unit in sorted(_LONG_UNITS):
+            for where in ("first", "hydrate", "both"):
+                i += 1
+                yield {"unit": unit, "counts": counts, "where": where,
+                       "charge": {"sign": "-+"[i % 2], "mag": 1 + i % 3, "explicit1": False} if i % 2 else None,
+                       "suffix": ["", "(s)", "(aq)"][i % 3]}
+
+
+def check_render_long(case, ctx):
+    f = long_formula(case)
+    ctx.label("counts=%d" % case["counts"], "unit=" + case["unit"], "long_part=" + case["where"])
+    check_render(f, ctx)
+    ctx.nontrivial(True)
+
+
+# -- the tokenizer itself: a plain digit behind an atom is not presentation --------------------------------------
+
+_TOKENIZER_UNITS = [
+    # (format, rendered, recovered text | None = must be refused)
+    ("latex", "H_{2}O", "H2O"), ("unicode", u"H₂O", "H2O"), ("html", "H<sub>2</sub>O", "H2O"),
+    ("latex", "CH_{2}CH3", None), ("unicode", u"CH₂CH3", None), ("html", "CH<sub>2</sub>CH3", None),
+    ("latex", "H2O", None), ("unicode", "H2O", None), ("html", "H2O", None),
+    ("latex", "(NH_{4})2SO_{4}", None), ("unicode", u"(NH₄)2SO₄", None), ("html", "(NH<sub>4</sub>)2SO<sub>4</sub>", None),
+    ("latex", "Fe_{12}.5O", None), ("unicode", u"Fe₁₂.5O", None),
+    ("latex", "CuSO_{4}\\cdot 5H_{2}O", "CuSO4..5H2O"), ("unicode", u"CuSO₄·5H₂O", "CuSO4..5H2O"),
+    ("html", "CuSO<sub>4</sub>&sdot;5H<sub>2</sub>O", "CuSO4..5H2O"),
+    ("latex", "CuSO_{4}\\cdot 5H2O", None), ("unicode", u"CuSO₄·5H2O", None),
+    ("latex", "\\alpha-^\\bullet NO_{2}", "alpha-.NO2"), ("html", "&sdot;&alpha;-NO<sub>2</sub>", ".alpha-NO2"),
+    ("latex", "Fe^{3+}", "Fe+3"), ("latex", "Fe^{+3}", None), ("unicode", u"Fe³⁺", "Fe+3"), ("unicode", u"Fe3⁺", None),
+]
+
+
+def enum_tokenizer(tier):
+    for fmt, rendered, expect in _TOKENIZER_UNITS:
+        yield {"fmt": fmt, "rendered": rendered, "expect": expect}
+
+
+def check_tokenizer(case, ctx):
+    """unit cases of the oracle's own tokenizer (no chempy involved): a wrong answer is an error of this module
+    (harness error, exit 2), not a violation of the property."""
+    ctx.label("fmt=" + case["fmt"], "expect=" + ("refuse" if case["expect"] is None else "recover"))
+    ctx.nontrivial(case["expect"] is None)
+    try:
+        got = invert(case["fmt"], case["rendered"])
+    except NotInvertible:
+        got = None
+    if got != case["expect"]:
+        raise AssertionError("tokenizer unit case %r: got %r" % (case, got))
 
 
 # -- Substance / Species ---------------------------------------------------------------
@@ -585,6 +691,13 @@ SUBCHECKS = [
     SubCheck("prefixes", check_render, enumerate=enum_prefixes,
              rule="all 24 greek prefixes, the radical dot and the 24 'greek-.' double prefixes x 4 fixed bodies x 3 formats "
                   "(exhaustive)"),
+    SubCheck("render_long", check_render_long, enumerate=enum_long, exhaustive=lambda tier: False,
+             rule="chains CH3-(unit)n-CH3 with 300 / 600 / 1200 numeric counts in one part (first part, a hydrate part, "
+                  "both), 4 repeat units (plain, bracketed, two-digit and decimal counts) x 3 formats: no count may stay "
+                  "a plain digit"),
+    SubCheck("tokenizer_unit", check_tokenizer, enumerate=enum_tokenizer,
+             rule="unit cases of the inverse tokenizer: plain digits behind an atom / closing bracket / hydrate part are "
+                  "refused, presentation tokens are undone (no chempy call)"),
     SubCheck("substance", check_substance, strategy=substance_cases(), quick=1500, thorough=100000,
              rule="Substance.from_formula / Species.from_formula (default, list and dict `phases`, default_phase_idx 0/n/None)"),
     SubCheck("reaction", check_reaction, strategy=reaction_cases(), quick=600, thorough=40000,
